@@ -166,6 +166,18 @@ CHECKS = {
   design_ref="DESIGN.md 3.9, 6 (C09)",
   note="Trusted: TLC, helper vpa (logs selected environment and cwd); values in one quoting style; read is given a fixed line.",
   technique="TLA+ model of variable / directory state vs reference scoping checked by TLC; TLC-simulated histories replayed on the binary"),
+ "C17": dict(
+  category="model_checking",
+  text="spec/Alias.tla: the alias table with define / redefine / unalias / list / show and use at five positions (line start, "
+       "after |, after ;, after &&, non-first word) and which value the reference substitutes; TLC checks the reference theorems "
+       "(unalias removes exactly one entry, a non-first word is never replaced) on every history of 4 operations (954 k states) and "
+       "simulates histories of 20 operations over names from [A-Za-z0-9_.-]+ (two of them also real programs, which makes "
+       "self-mention and mention of another alias observable) and 7 values (options, quotes of the other kind, a pipe, another "
+       "alias name, key=value); each history is rendered to a script and run by the real binary; oracle: the helper records of "
+       "every use; every listing and single show is fed to a fresh shell that must behave as the table says.",
+  design_ref="DESIGN.md 3.11, 6 (C17)",
+  note="Trusted: TLC, helpers; the meaning of the 7 values is tabulated in the driver.",
+  technique="TLA+ alias table model; TLC-simulated histories replayed on the binary incl. listing round trip through a fresh shell"),
  "C06": dict(
   category="model_checking",
   text="TLC explores every interleaving of child status changes (with Linux's report coalescing), foreground-wait iterations, "
